@@ -7,7 +7,29 @@ import langgen as lg
 import nv
 
 
+SUB = 26        # statements (beyond the prelude) of one depth-4 sub-vocabulary
+
+
 def run(rep, pid, tier, wd, vocab, track, depth_cfg=None, keyfn=None, tag="mc", prelude=0):
+    """Quick: every history of depth 3 over the whole vocabulary.  Thorough: the same, and every history
+    of depth 4 over three seeded sub-vocabularies of SUB statements (depth 4 over the whole vocabulary
+    is several million transitions: neither TLC's output nor the replay fits the machine)."""
+    if tier != "thorough" or depth_cfg:
+        return run1(rep, pid, tier, wd, vocab, track, depth_cfg, keyfn, tag, prelude)
+    import random
+    tot = run1(rep, pid, tier, wd, vocab, track, "MC_Lang_quick.cfg", keyfn, tag, prelude)
+    rng = random.Random(nv.seed() * 7919 + len(vocab))
+    rest = list(range(prelude, len(vocab)))
+    for k in range(3):
+        pick = sorted(rng.sample(rest, min(SUB, len(rest))))
+        sub = vocab[:prelude] + [vocab[i] for i in pick]
+        r = run1(rep, pid, tier, wd, sub, track, "MC_Lang_thorough.cfg", keyfn, "%s-d4-%d" % (tag, k), prelude, samples=False)
+        for f in ("distinct", "transitions", "nontrivial"):
+            tot[f] += r[f]
+    return tot
+
+
+def run1(rep, pid, tier, wd, vocab, track, depth_cfg=None, keyfn=None, tag="mc", prelude=0, samples=True):
     """vocab: list of dict(ast=..., w=[names], name=short label)."""
     sp = os.path.join(wd, "stmts-%s.ndjson" % tag)
     with open(sp, "w") as f:
@@ -56,13 +78,13 @@ def run(rep, pid, tier, wd, vocab, track, depth_cfg=None, keyfn=None, tag="mc", 
             if o == "panic":
                 what = "panic:" + nv.norm_panic(last.get("e", ""))
             label = vocab[seq[-1] - 1].get("name", srcs[seq[-1] - 1])
-            key = (keyfn(vocab, seq, what) if keyfn else "%s:%s:%s" % (tag, label, what))
+            key = (keyfn(vocab, seq, what) if keyfn else "%s:%s:%s" % (tag.split("-d4-")[0], label, what))
             rep.mismatch(key, "after %s: %s  observed %s / vars %s, specification expects %s" % (
                 "; ".join(srcs[i - 1] for i in seq[:-1]) or "(empty session)", srcs[seq[-1] - 1],
                 json.dumps(last.get("v", last.get("e")))[:150],
                 json.dumps([lg.from_canon(c) for c in last.get("obs", [])])[:300], json.dumps(exp)[:400]),
                 {"steps": [srcs[i - 1] for i in seq], "expected": exp, "observed": last, "track": track})
     for n in (0, len(cases) // 3, (2 * len(cases)) // 3):
-        if n < len(cases):
+        if samples and n < len(cases):
             rep.sample({"history": [s["src"] for s in cases[n]["steps"]], "expected": trans[n]["exp"]})
     return dict(distinct=r["distinct"], transitions=len(trans), nontrivial=len(nontrivial))
